@@ -256,6 +256,7 @@ type session struct {
 	handled  time.Time // when the node was first seen to have handled everything of the current op
 	blk      *blockRec // what the handler of the latest RequestBlock saw
 	onStops  int64     // onStop invocations (atomic)
+	dlMu     sync.Mutex // stands for the downloader's state lock: held by `closecancel` around CancelBlockRequest, taken by onStop
 	cancelCh chan bool // a CancelBlockRequest that did not return within its time bound
 	endTold  bool      // the end-of-run tail was printed
 }
@@ -1098,7 +1099,12 @@ func (w *worker) stepInner(line string) string {
 			}
 			rec.done = "err"
 			return fmt.Errorf("incomplete block")
-		}, func(context.Context) { atomic.AddInt64(&s.onStops, 1) })
+		}, func(context.Context) {
+			// like BlockDownloader.Stop, which takes the state lock that a Cancel holds while it calls CancelBlockRequest
+			atomic.AddInt64(&s.onStops, 1)
+			s.dlMu.Lock()
+			s.dlMu.Unlock()
+		})
 		if err != nil {
 			return op + " => req=busy"
 		}
@@ -1182,9 +1188,54 @@ func (w *worker) stepInner(line string) string {
 			busy = b2s(s.node.IsBusy())
 		}
 		return op + fmt.Sprintf(" => bh=%s onstop=%d busy=%s", s.blk.show(), atomic.LoadInt64(&s.onStops), busy)
+	case "closecancel":
+		// the peer drops while the download is being cancelled: like BlockDownloader.Cancel the harness holds the
+		// "state lock" while it calls CancelBlockRequest; the node's run() meanwhile calls the request's on-stop
+		// function (BlockDownloader.Stop), which takes that lock. Neither may wait for the other with the node
+		// mutex held.
+		h, ok := a.Hex("hdr")
+		if !ok || len(h) != 80 {
+			break
+		}
+		if s.hung || s.dead || s.cancelPending() {
+			return s.stepInnerClose(op, a, " started=dead")
+		}
+		var hash bitcoin.Hash32
+		copy(hash[:], sha256d(h))
+		before := atomic.LoadInt64(&s.onStops)
+		s.dlMu.Lock()
+		s.conn.Close()
+		hx.Until(2*time.Second, func() bool {
+			select {
+			case <-s.done:
+				return true
+			default:
+			}
+			return atomic.LoadInt64(&s.onStops) > before
+		})
+		ch := make(chan bool, 1)
+		go func() { ch <- s.node.CancelBlockRequest(hx.Ctx(), hash) }()
+		started := ""
+		select {
+		case r := <-ch:
+			started = b2s(r)
+		case <-hx.After(300 * time.Millisecond):
+			started = "hung"
+			s.cancelCh = ch
+		}
+		s.dlMu.Unlock()
+		return s.stepInnerClose(op, a, " started="+started)
 	case "close":
+		return s.stepInnerClose(op, a, "")
+	}
+	return op + " => bad-op"
+}
+
+// stepInnerClose is the `close` op; `pre` is put in front of its observation.
+func (s *session) stepInnerClose(op string, a hx.Args, pre string) string {
+	{
 		if s.hung {
-			return op + " => run=hung hh=[] st=" + flags(s.node)
+			return op + " =>" + pre + " run=hung hh=[] st=" + flags(s.node)
 		}
 		if !s.dead {
 			s.conn.Close()
@@ -1207,9 +1258,8 @@ func (w *worker) stepInner(line string) string {
 				tail = s.endTail()
 			}
 		}
-		return op + " => run=" + run + " hh=" + showHH(hh) + " st=" + flags(s.node) + tail
+		return op + " =>" + pre + " run=" + run + " hh=" + showHH(hh) + " st=" + flags(s.node) + tail
 	}
-	return op + " => bad-op"
 }
 
 func runWorker() {
